@@ -268,6 +268,12 @@ impl TopicActor {
     ) -> Result<(), AttachSubscriptionError> {
         #[cfg(deltio_verif)]
         let verif_sub = (subscription.name.to_string(), subscription.internal_id);
+        // A subscription that is already being deleted may have asked us to remove it before
+        // this request got here: attaching it now would leave a dead subscription in the list.
+        if subscription.is_deleting() {
+            return Ok(());
+        }
+
         // Insert the subscription.
         if let Entry::Vacant(entry) = self.subscriptions.entry(subscription.name.clone()) {
             entry.insert(subscription);
